@@ -32,10 +32,22 @@ class Expression(Node):
         """
         assert (len(self.tokens) == 3)
         expr = self.process(self.tokens, scope)
-        A, O, B = [
-            e[0] if isinstance(e, tuple) else e for e in expr
-            if str(e).strip()
-        ]
+        parts = []
+        negate = False
+        for e in expr:
+            e = e[0] if isinstance(e, tuple) else e
+            if not str(e).strip():
+                continue
+            if e == '-' and len(parts) != 1:
+                # sign of a negated variable operand (-@a), not the operator
+                negate = not negate
+                continue
+            if negate:
+                e = str(e)
+                e = e[1:] if e.startswith('-') else '-' + e
+                negate = False
+            parts.append(e)
+        A, O, B = parts
         try:
             a, ua = utility.analyze_number(A, 'Illegal element in expression')
             b, ub = utility.analyze_number(B, 'Illegal element in expression')
